@@ -240,8 +240,12 @@ var validSQLiteColumnTypes = map[string]bool{
 	"DOUBLE PRECISION": true,
 }
 
-// sqliteColumnTypePattern matches valid column type definitions
-var sqliteColumnTypePattern = regexp.MustCompile(`^[A-Za-z][A-Za-z0-9_ (),.]*$`)
+// sqliteColumnTypePattern matches valid column type definitions: words, and
+// parenthesised groups that hold only digits, spaces and commas (VARCHAR(255),
+// NUMERIC(10, 2)). A comma or an unbalanced parenthesis outside such a group
+// would end the column definition inside CREATE TABLE (...) and start a new
+// column, constraint or table clause.
+var sqliteColumnTypePattern = regexp.MustCompile(`^[A-Za-z][A-Za-z0-9_ .]*(\([0-9 ,]*\)[A-Za-z0-9_ .]*)*$`)
 
 // sanitizeSQLiteColumnType validates a SQLite column type definition
 func sanitizeSQLiteColumnType(colType string) (string, error) {
